@@ -87,6 +87,8 @@ impl CsrSegment {
     }
 
     pub fn persist(&mut self, pager: &mut Pager) -> Result<()> {
+        #[cfg(nervusdb_verif)]
+        let _owner = nervusdb_api::verif::owner_scope("segment");
         // Build reverse index if we have edges but no reverse index
         if !self.edges.is_empty() && self.in_edges.is_empty() {
             let mut edges_with_src: Vec<EdgeKey> = self
